@@ -37,7 +37,7 @@ def sparse_twin(p):
 def run(tier):
     import os
     from core import VERIF
-    return sc.run_family(PID, tier, RULE, select, cap=dict(quick=600, thorough=5000), transform=sparse_twin,
+    return sc.run_family(PID, tier, RULE, select, cap=dict(quick=600, thorough=2500), transform=sparse_twin,
                          extra_paths=[os.path.join(VERIF, "harness", "fake")])
 
 
